@@ -474,6 +474,8 @@ func C05() *engine.Check {
 			clockSub("C05"),
 			clockHistSub("C05"),
 			c04RenewSub("complete"),
+			authConcSub("C05"),
+			concRaceSub("C05"),
 		},
 		Assumptions: []string{
 			"the completeness direction of the C01-C04 universes is charged here: whenever the reference says no rule is violated the implementation must allow",
